@@ -85,6 +85,11 @@ impl Server {
             body: vec![],
         };
 
+        Server::bad_request_response_to(message, error_request)
+    }
+
+    // same as bad_request_response, for a request which was parsed, response to HEAD and OPTIONS has no body
+    pub fn bad_request_response_to(message: String, error_request: Request) -> Vec<u8> {
         let size = message.chars().count() as u64;
         let content_range = ContentRange {
             unit: Range::BYTES.to_string(),
@@ -156,7 +161,7 @@ impl Server {
         let app_processing = app.execute(&request, &connection);
         if app_processing.is_err() {
             let message = app_processing.as_ref().err().unwrap().to_string();
-            let response = Server::bad_request_response(message);
+            let response = Server::bad_request_response_to(message, request.clone());
 
             let boxed_stream = stream.write(response.borrow());
             if boxed_stream.is_ok() {
